@@ -29,14 +29,14 @@ RULES = {
 def rand_cfg(rng, kinds=("DE", "DE2", "NM", "PW")):
     kind = rng.choice(kinds)
     dim = rng.choice([1, 2, 3])
-    box = rng.choice(["none", "wide", "unit", "unit", "degenerate", "onesided", "infinite"])
+    box = rng.choice(["none", "wide", "unit", "unit", "degenerate", "onesided", "infinite", "halfinf", "mixedinf"])
     tight, clip = rng.choice([(None, None)] * 4 + [(True, None), (False, None), (True, True), (None, True), (True, False)])
     cons = rng.choice(["none", "pin", "clamp", "round", "tie", "symbolic"])
     if box == "degenerate" and cons in ("round", "pin", "clamp"):
         cons = "none"
     if box == "none":
         tight = clip = None
-    if box in ("onesided", "infinite") and (tight or clip is not None):
+    if box in ("onesided", "infinite", "halfinf", "mixedinf") and (tight or clip is not None):
         tight = clip = None        # symbolic bounds refuse infinite sides at set-up (raises; no run to observe)
     return dict(kind=kind, dim=dim, npop=rng.choice([4, 5, 6]),
                 cost=rng.choice(["sphere", "abs", "plateau", "vector", "infwall"]),
@@ -255,7 +255,7 @@ def run(prop, a):
         cfg["tight"] = cfg["clip"] = None
         if cfg["cost"] == "vector":
             cfg["cost"] = "sphere"
-        if cfg["box"] in ("degenerate", "onesided", "infinite"):
+        if cfg["box"] in ("degenerate", "onesided", "infinite", "halfinf", "mixedinf"):
             cfg["box"] = "unit"
         cfg["dim"] = max(cfg["dim"], 2) if i % 3 else cfg["dim"]
         cfg["nested"] = ["DE", "NM", "DE2", "PW", "DE", "NM"][i % 6]
